@@ -225,7 +225,8 @@ def run(tier):
 
     # ---- MC + GEN: theorems over the case space, emission of the non-string cases
     cfg = "NumHelpersMC.cfg" if tier == "quick" else "NumHelpersMC_thorough.cfg"
-    mc = tlc.mc("C20", "NumHelpersMC", cfg, workers=1 if tier == "quick" else 4, coverage=False, heap="8g")
+    mc = tlc.mc("C20", "NumHelpersMC", cfg, workers=1, coverage=False, heap="12g", timeout=2400,
+                extra=("-maxSetSize", "3000000") if tier == "thorough" else ())
     v.add_mc(mc)
     cases = mc.json_prints()
     if len(cases) < 10000:
